@@ -15,6 +15,7 @@ import (
 	"sync"
 	"time"
 
+	"github.com/robfig/soy"
 	"github.com/robfig/soy/soyhtml"
 
 	"verif/c02"
@@ -27,6 +28,7 @@ type bcase struct {
 	Prog    *core.Program `json:"prog"`
 	Files   []core.File   `json:"files"`
 	Accept  bool          `json:"accepted"`
+	Accept2 bool          `json:"acceptedOnRecompile"`
 	ErrText string        `json:"compileError,omitempty"`
 	Verdict string        `json:"specVerdict,omitempty"`
 }
@@ -83,10 +85,30 @@ func compileAll(cases []*bcase) {
 			defer wg.Done()
 			defer func() { <-sem }()
 			c.Files = core.UnparseProgram(c.Prog, core.Style{})
-			_, err, _ := core.Compile(c.Files, core.ToDataMap(c.Prog.Glob))
+			// the same Bundle object is compiled twice: the verdict must not
+			// depend on an earlier compilation
+			b := soy.NewBundle()
+			for _, f := range c.Files {
+				b.AddTemplateString(f.Name, f.Text)
+			}
+			b.AddGlobalsMap(core.ToDataMap(c.Prog.Glob))
+			compile := func() (err error) {
+				defer func() {
+					if r := recover(); r != nil {
+						err = fmt.Errorf("PANIC in compile: %v", r)
+					}
+				}()
+				_, err = b.Compile()
+				return err
+			}
+			err := compile()
+			err2 := compile()
 			c.Accept = err == nil
+			c.Accept2 = err2 == nil
 			if err != nil {
 				c.ErrText = err.Error()
+			} else if err2 != nil {
+				c.ErrText = "second Compile(): " + err2.Error()
 			}
 		}(c)
 	}
@@ -113,6 +135,10 @@ func judgeVerdicts(ctx *core.Ctx, cases []*bcase) {
 		if !c.Accept && strings.Contains(c.ErrText, "unexpected") && !strings.Contains(c.ErrText, "{@param") {
 			ctx.ToolError("mutant does not parse (%s): %s\n%s", c.Kind, c.ErrText, srcOf(c))
 			continue
+		}
+		if c.Accept != c.Accept2 {
+			ctx.Violation(core.Sig{Family: "verdict", Feature: "verdict-changes-on-recompile,mutation=" + kindClass(c.Kind)},
+				fmt.Sprintf("Bundle.Compile() accepted=%v the first time and %v the second time (%s)\n%s", c.Accept, c.Accept2, c.ErrText, srcOf(c)), c)
 		}
 		line := map[string]interface{}{"bundle": c.Prog.Bundle, "accepted": c.Accept}
 		b, _ := json.Marshal(line)
@@ -165,6 +191,14 @@ func judgeVerdicts(ctx *core.Ctx, cases []*bcase) {
 			fmt.Sprintf("rules say %s, compiler accepted=%v (%s)\n%s", v, c.Accept, c.ErrText, srcOf(c)), c)
 	}
 	ctx.Extra["cases_by_mutation"] = kinds
+}
+
+// kindClass drops the per-member coordinates of family kinds.
+func kindClass(k string) string {
+	if strings.HasPrefix(k, "family:") {
+		return "family"
+	}
+	return k
 }
 
 func max(a, b int) int {
